@@ -24,6 +24,8 @@ func runC01(c *Check, tier string) {
 	// the statement names "bytes moving from the end of one input file to the start of the next":
 	// injective framing of the key stream is part of this property too
 	ruleR09c(c, "R01f")
+	// a restore must not leave files of an earlier build behind (they would end up in dependants' outputs)
+	ruleR06c(c, "R01g")
 }
 
 var changeHashKey = fk("model.Target", "ChangeHash")
